@@ -124,7 +124,7 @@ Theorem C18_expand_positional_refuted :
 Proof. exact expand_positional_refuted. Qed.
 Print Assumptions C18_expand_positional_refuted.
 
-(* LowerRescale and the result type (F-C18-3 repaired, /repo 241b7f1): the expansion converts the clamped i32 value
+(* LowerRescale and the result type (F-C18-3 repaired, /repo 97622cd): the expansion converts the clamped i32 value
    to the result type of the op; the yielded value is well typed for every result width and is the golden
    model's value on the safe inputs; before the repair it was an i8 whatever the result type. *)
 Theorem C18_rescale_result_i8_ok : forall p,
